@@ -34,8 +34,9 @@ class LiveRender:
         Returns:
             Control: A control instance that may be printed.
         """
-        if self._shape is not None:
-            _, height = self._shape
+        shape = self._shape
+        if shape is not None:
+            _, height = shape
             return Control("\r\x1b[2K" + "\x1b[1A\x1b[2K" * (height - 1))
         return Control("")
 
@@ -45,8 +46,9 @@ class LiveRender:
         Returns:
             Control: A Control instance that may be printed.
         """
-        if self._shape is not None:
-            _, height = self._shape
+        shape = self._shape
+        if shape is not None:
+            _, height = shape
             return Control("\r" + "\x1b[1A\x1b[2K" * height)
         return Control("")
 
